@@ -169,6 +169,18 @@ def ilvt_decoding(ctx, ex, cls, cn) -> int:
     elif sel[0] == "a" and sel[2] == "data":
         direct = True
     ok = (one_hot and via_encoder) or (binary and direct)
+    if binary:
+        # a binary table stores the number of the bank that was written last: write port k stores k, bank k is bank_{k}
+        ilvt_obj = None
+        for oid, o in ex.objects.items():
+            if o is ilvt[0]:
+                ilvt_obj = ("obj", oid)
+        wr = [h for h in ex.of(HwAssign) if h.lhs is not None and h.lhs[0] == "a" and h.lhs[2] == "data" and h.lhs[1][0] == "i" and ex.obj(h.lhs[1][1]) is not None
+              and ex.obj(h.lhs[1][1]).ctor[0] == "lc" and ex.obj(ex.obj(h.lhs[1][1]).ctor[2]) is not None and ex.obj(ex.obj(h.lhs[1][1]).ctor[2]).ctor[1] == ("a", ilvt_obj, "write_port")]
+        banks = [s for s in ex.of(Submodule) if isinstance(s.name, tuple) and s.name[0] == "fstr" and ex.obj(s.value) is not None and ex.obj(s.value).ctor[0] == "call" and ex.obj(s.value).ctor[1] == ("n", "MultiReadMemory")]
+        okb = len(wr) == 1 and wr[0].rhs == wr[0].lhs[1][2] and len(banks) == 1 and _fstr_holes(banks[0].name) == [wr[0].rhs]
+        ctx.check(okb, "C23.ilvt-bank-number", wr[0].site if wr else site, f"{cls}.table-entry[{cn}]", found="; ".join(f"{tstr(h.lhs)} <- {tstr(h.rhs)}" for h in wr) + (f"; bank named {tstr(banks[0].name)}" if banks else ""),
+                  required="write port k records k in the table, and the data of write port k goes to the bank registered as bank_{k} (the Switch selects banks by that number)")
     ctx.check(ok, "C23.ilvt-decoding", site, f"{cls}.bank-select[{cn}]", found=f"table entries {tstr(shape) if shape else '?'}; bank selected by {tstr(sel)[:80]}" + (" fed by the table" if via_encoder else ""),
               required="a one-hot coded table (one bit per write port) is decoded by an Encoder of that width, a binary table selects the bank directly")
     return 1
@@ -239,7 +251,8 @@ def coding_tables(ctx, ex, cls, cn) -> int:
     if not wr and not rd:
         return 0
     if len(wr) != 1 or len(rd) != 1:
-        raise AnalysisError("C23.one-hot-coding", ex.func.site, f"expected one coded write expression and one decoded read expression, found {len(wr)} / {len(rd)}")
+        raise AnalysisError("C23.one-hot-coding", ex.func.site, f"expected one coded write expression and one decoded read expression, found {len(wr)} / {len(rd)}",
+                            missing="OneHotCodedILVT: " + ("the bank vector written by a port (Cat of feedback bits)" if len(wr) != 1 else "the decoded read data (Cat of the live tests)"))
     w, r = wr[0], rd[0]
     n = 0
     W = ("call", ("n", "len"), (("a", ("self",), "write_ports"),), ())
@@ -323,6 +336,11 @@ def coding_tables(ctx, ex, cls, cn) -> int:
             (port_b,), port_it = [(fr[1], fr[2]) for fr in f0.frames if fr[0] == "for"][1]
             kexpr = pmatch("self.write_ports[Q_k].addr", f0.rhs)["k"]
             plist = f0.lhs[1][1] if f0.lhs[1][0] == "i" else None
+            if f0.lhs[1][0] != "i" or f0.lhs[1][2] != port_b:
+                bad.append(f"the feedback address is assigned to {tstr(f0.lhs)}, not to the port the loop over the feedback ports is at")
+            ens = [h for h in ex.of(HwAssign) if h.lhs is not None and h.lhs[0] == "a" and h.lhs[2] == "en" and h.frames == f0.frames]
+            if len(ens) != 1 or ens[0].lhs[1] != f0.lhs[1]:
+                bad.append("the feedback port that gets the address is not the one that is enabled")
             nports = None
             if plist is not None and ex.obj(plist) is not None and ex.obj(plist).ctor[0] == "lc":
                 nports = len(eval_seq(ex.obj(plist).ctor[3][0][1], base_env))
